@@ -37,7 +37,7 @@ func (c *Ctx) one(f Flow) *State {
 	return f.next
 }
 
-const maxAlts = 40
+const maxAlts = 400
 
 // execBlock keeps the outcomes of a wide switch apart for the rest of the block, so that obligations are asserted
 // per case and never over the merged post-switch state (DESIGN.md §12 lesson xi).
@@ -143,6 +143,8 @@ func (c *Ctx) assignTo(lhs ast.Expr, v Val, st *State, define bool) {
 		case MapV:
 			c.oblige(st, "safe.mapwrite", c.pos(l.Pos()), not(b.Nil), "assignment to entry in nil map")
 			k := c.eval(l.Index, st)
+			c.noteElemStore(st, types.ExprString(l.X), k, c.pos(l.Pos()), "map key")
+			c.noteElemStore(st, types.ExprString(l.X), v, c.pos(l.Pos()), "map value")
 			nm := c.mapStore(st, b, k, v)
 			c.assignTo(l.X, nm, st, false)
 		default:
@@ -233,6 +235,7 @@ var opAssign = map[token.Token]token.Token{token.ADD_ASSIGN: token.ADD, token.SU
 	token.MUL_ASSIGN: token.MUL, token.QUO_ASSIGN: token.QUO, token.REM_ASSIGN: token.REM, token.AND_NOT_ASSIGN: token.AND_NOT}
 
 func (c *Ctx) exec(s ast.Stmt, st *State) Flow {
+	c.curPos = s.Pos()
 	if c.stmtHook != nil {
 		if f, ok := c.stmtHook(c, s, st); ok {
 			return f
@@ -500,7 +503,17 @@ func (c *Ctx) execSwitch(x *ast.SwitchStmt, st *State) Flow {
 	ds := c.withGuard(st, noneMatched)
 	if deflt != nil {
 		c.caseEnter(deflt, ds)
+		var snap *State
+		if c.onCaseExit != nil {
+			snap = ds.clone()
+		}
 		f := c.execBlock(deflt.Body, ds)
+		if c.onCaseExit != nil {
+			if end := c.one(f); end != nil {
+				c.onCaseExit(c, deflt, snap, end)
+				f = Flow{next: end, brk: f.brk, cont: f.cont}
+			}
+		}
 		outs = append(outs, c.one(f))
 		outs = append(outs, f.brk...)
 		conts = append(conts, f.cont...)
@@ -655,8 +668,12 @@ func (c *Ctx) modsOf(nodes ...ast.Node) modSet {
 			m.fields[l.Sel.Name] = true
 			if id, ok := l.X.(*ast.Ident); ok {
 				if o := c.objOf(id); o != nil {
-					m.vars[o] = true // struct-valued locals
+					if _, isStruct := o.Type().Underlying().(*types.Struct); isStruct {
+						m.vars[o] = true // struct-valued locals
+					}
 				}
+			} else {
+				lhs(l.X)
 			}
 		case *ast.IndexExpr:
 			if id, ok := l.X.(*ast.Ident); ok {
@@ -825,6 +842,9 @@ type LoopSpec struct {
 	DecFn     func(c *Ctx, before, after *State) string
 	AxFn      func(c *Ctx, st *State, idx string) // extra facts to assume at the loop head (e.g. suffix-sum unfolding)
 	Mods      []string                            // extra variable names to havoc
+	// PostFn: summary of an unrolled loop. It is asserted on the real exit state, and execution continues from the
+	// pre-loop state with the loop's mod-set havocked and the summary assumed (keeps later path conditions small).
+	PostFn func(c *Ctx, before, after *State) string
 }
 
 func (c *Ctx) loopSpec(ord int, loop ast.Stmt) *LoopSpec {
@@ -852,6 +872,15 @@ func (c *Ctx) evalInv(ls *LoopSpec, st *State, idx string, at token.Pos) string 
 	return r
 }
 
+// assumeInv assumes the loop invariant in a havocked state (no auxiliary definitions: see assumeSpec)
+func (c *Ctx) assumeInv(ls *LoopSpec, st *State, idx string, at token.Pos, extra string) {
+	save := c.noDef
+	c.noDef = true
+	t := c.evalInv(ls, st, idx, at)
+	c.noDef = save
+	c.assume(implies(st.guard, and(extra, t)))
+}
+
 func (c *Ctx) execFor(x *ast.ForStmt, st *State) Flow {
 	c.loopN++
 	ord := c.loopN
@@ -867,7 +896,19 @@ func (c *Ctx) execFor(x *ast.ForStmt, st *State) Flow {
 		c.fail(x.Pos(), "loop %d has no contract (unroll or invariant)", ord)
 	}
 	if ls.Unroll > 0 {
-		return c.unrollFor(x, st, key, ls.Unroll)
+		if ls.PostFn == nil {
+			return c.unrollFor(x, st, key, ls.Unroll)
+		}
+		before := st.clone()
+		f := c.unrollFor(x, st, key, ls.Unroll)
+		exit := c.one(f)
+		if exit == nil {
+			return f
+		}
+		c.addObl(Obl{Name: key + "/loop.post", Kind: "loop.post", Guard: exit.guard, Goal: ls.PostFn(c, before, exit), Pos: c.pos(x.Pos()), Text: "summary of the unrolled loop holds at its exit"})
+		h := c.havoc(before, c.modsOf(x.Body, x.Post))
+		c.assume(implies(h.guard, ls.PostFn(c, before, h)))
+		return Flow{next: h}
 	}
 	// invariant cut
 	c.addObl(Obl{Name: key + "/loop.entry", Kind: "loop.entry", Guard: st.guard, Goal: c.evalInv(ls, st, "", x.Pos()), Pos: c.pos(x.Pos()), Text: "loop invariant holds on entry"})
@@ -877,7 +918,7 @@ func (c *Ctx) execFor(x *ast.ForStmt, st *State) Flow {
 	if ls.AxFn != nil {
 		ls.AxFn(c, h, "")
 	}
-	c.assume(implies(h.guard, c.evalInv(ls, h, "", x.Pos())))
+	c.assumeInv(ls, h, "", x.Pos(), "true")
 	exit := (*State)(nil)
 	body := h
 	if x.Cond != nil {
@@ -1042,7 +1083,7 @@ func (c *Ctx) execRange(x *ast.RangeStmt, st *State) Flow {
 	if ls.AxFn != nil {
 		ls.AxFn(c, h, j)
 	}
-	c.assume(implies(h.guard, and(and(c.leIdx(zero, j), c.ltIdx(j, ln)), c.evalInv(ls, h, j, x.Pos()))))
+	c.assumeInv(ls, h, j, x.Pos(), and(c.leIdx(zero, j), c.ltIdx(j, ln)))
 	body := h.clone()
 	k, e := elem(body, j)
 	if id, ok := x.Key.(*ast.Ident); ok && id.Name != "_" {
@@ -1062,7 +1103,7 @@ func (c *Ctx) execRange(x *ast.RangeStmt, st *State) Flow {
 	if ls.AxFn != nil {
 		ls.AxFn(c, e2, ln)
 	}
-	c.assume(implies(e2.guard, c.evalInv(ls, e2, ln, x.Pos())))
+	c.assumeInv(ls, e2, ln, x.Pos(), "true")
 	return Flow{next: c.mergeAll(append([]*State{e2}, f.brk...))}
 }
 
@@ -1083,4 +1124,16 @@ func rangeTypes(t types.Type) (k, v types.Type) {
 		return types.Typ[types.Int], types.Typ[types.Rune]
 	}
 	return nil, nil
+}
+
+// noteElemStore records what is put into a container of the message (C06 representation invariant, C07 provenance)
+func (c *Ctx) noteElemStore(st *State, container string, v Val, pos string, what string) {
+	switch x := v.(type) {
+	case PtrV:
+		c.nilElemStores = append(c.nilElemStores, ElemStore{Field: strings.TrimPrefix(container, "x."), Ref: x.Ref, Guard: st.guard, Pos: pos, What: what})
+	case SliceV:
+		if x.Prov == "input" || x.Prov == "mixed" {
+			c.aliasStores = append(c.aliasStores, StoreRec{Key: container, Guard: st.guard, Prov: x.Prov, Pos: pos})
+		}
+	}
 }
